@@ -262,6 +262,10 @@ def install_field(I):
 
     def felt_new(I, a, f):
         x = a[0]
+        while isinstance(x, Agg) and x.kind == "adt" and len(x.items) == 1:
+            x = x.items[0]          # newtype wrappers (ContextId(u32) ...)
+        if isinstance(x, bool):
+            x = int(x)
         if isinstance(x, int):
             return Poly.const(x)
         if isinstance(x, BitInt):
